@@ -24,7 +24,9 @@ def run(prog, chk):
     chk.rule('R16.A', 'obligation matrix: rule predicate × analyser site has a guarded Semantic throw')
     chk.rule('R16.B', 'type-compatibility helpers equal the documented relation on the whole finite type domain')
     chk.rule('R16.C', 'no site skips the comparison by testing the Unknown primitive tag of an inferred value type')
+    chk.rule('R16.D', 'context discipline: a context member a visitor sets for the body it analyses is saved first and restored on every normal exit')
     fns = [f for f in prog.functions if f.body and f.file.endswith('semantic_analyser.cpp')]
+    _context_discipline(prog, chk, fns)
     visits = {}
     for f in fns:
         if f.short == 'visit' and f.cls == AN and f.params:
@@ -350,3 +352,139 @@ def _relation(prog, chk, named, fns):
             badm.append('%s ← %s: %s' % (e, a, got))
     chk.ob('R16.B', 'matchesPrimitive', 'src/bloch/compiler/semantics/semantic_analyser.cpp', not badm,
            'matchesPrimitive: equal tags, int→long, unknown passes — nothing else; mismatches: %s' % badm[:6], key='table:matchesPrimitive')
+
+
+# (function, member) pairs that write a saved-elsewhere context member without saving it, confirmed by reading:
+CONTEXT_SIGNALS = {
+    ('visit(ReturnStatement)', 'm_foundReturn'): 'a signal read by the enclosing function/method visitor after it analysed the body (which saves and restores it)',
+}
+
+
+def _context_discipline(prog, chk, fns):
+    """The static rules are decided in context (current class, static/constructor/destructor flags, expected return type …).  A
+    visitor that sets such a member for the body it descends into must put the old value back — otherwise every declaration
+    analysed afterwards is checked in the wrong context (e.g. `final` assignments stay allowed after a constructor, instance
+    access stays forbidden after a static method).  The context members are found by effect: members some analyser method copies
+    into a local (`auto saved = m_x;`).  In every method that writes such a member: a save-local dominates the write, and a scope-exit
+    object declared before the write restores it from that local, or every normal path from the write to the exit passes the
+    restoring assignment."""
+    from ..kcanon import Canon
+    meths = [f for f in fns if f.cls == AN and f.kind == 'method']
+
+    def save_locals(f):
+        out = {}
+        for v in SX.walk(f.body, into_lambdas=False):
+            if v['k'] != 'var' or not SX.is_node(v.get('init')):
+                continue
+            i = SX.strip(v['init'])
+            while SX.is_node(i) and i.get('k') in ('cast', 'construct') and (i['k'] == 'cast' or len(SX.real_args(i)) == 1):
+                i = SX.strip(i['e'] if i['k'] == 'cast' else SX.real_args(i)[0])
+            if SX.is_this_member(i) and not (v.get('type') or '').rstrip().endswith('&'):
+                out.setdefault(i['name'], []).append(v)
+        return out
+    saved_somewhere = set()
+    per_fn = {}
+    for f in meths:
+        sl = save_locals(f)
+        per_fn[f.key] = sl
+        saved_somewhere |= set(sl)
+    # only members that are also written back from such a local somewhere are context members
+    restored = set()
+    for f in meths:
+        for n in SX.walk(f.body):
+            w = SX.write_target(n)
+            if w and w[2] == '=' and SX.is_this_member(SX.strip(w[0])):
+                r = SX.strip(w[1])
+                while SX.is_node(r) and r.get('k') in ('call', 'cast') and (r['k'] == 'cast' or (SX.callee(r) or '').startswith('std::move')):
+                    r = SX.strip(r['e'] if r['k'] == 'cast' else SX.real_args(r)[0])
+                if SX.is_node(r) and r.get('k') == 'ref' and r.get('kind') == 'var':
+                    restored.add(SX.strip(w[0])['name'])
+    ctx = saved_somewhere & restored
+    chk.count('analyser context members (saved and restored somewhere)', len(ctx), 5)
+    nsite = 0
+    for f in meths:
+        if f.short in ('analyse',):
+            continue
+        g = prog.cfg(f)
+        lam_by_node = {id(lf.node): lf for lf in f.lambdas}
+        # scope-exit objects: locals initialised from a call whose argument is a closure; their restores run on every exit
+        exits = []
+        for d in g.nodes:
+            if d.kind == 'decl' and SX.is_node(d.e.get('init')):
+                for x in SX.walk(d.e['init']):
+                    if x['k'] == 'lambda' and id(x) in lam_by_node and ('ScopeExit' in (d.e.get('type') or '') or 'scope' in (d.e.get('type') or '').lower()):
+                        exits.append((d, lam_by_node[id(x)]))
+
+        def restores(body_fn_or_node, m, sids):
+            out = []
+            for n in SX.walk(body_fn_or_node):
+                w = SX.write_target(n)
+                if w and w[2] == '=' and SX.is_this_member(SX.strip(w[0]), m):
+                    r = SX.strip(w[1])
+                    while SX.is_node(r) and r.get('k') in ('call', 'cast') and (r['k'] == 'cast' or (SX.callee(r) or '').startswith('std::move')):
+                        r = SX.strip(r['e'] if r['k'] == 'cast' else SX.real_args(r)[0])
+                    if SX.is_node(r) and r.get('k') == 'ref' and r.get('id') in sids:
+                        out.append(n)
+            return out
+        for m in sorted(ctx):
+            sl = per_fn[f.key].get(m, [])
+            sids = {v['id'] for v in sl}
+            # counter idiom: `if (c) m += 1;  auto x = makeScopeExit([&] { if (c) m -= 1; });` — balanced by the scope exit
+            incs = [(n, op, r) for n, l, r, op in g.writes() if SX.is_this_member(SX.strip(l), m) and op in ('+=', '++')]
+            for i_, (n, op, r) in enumerate(incs):
+                nsite += 1
+                amount = SX.show(r) if op == '+=' else '1'
+                conds = sorted(SX.show(ce) + ('' if pol else '!') for ce, pol, _ in g.guards(n))
+                okb = False
+                for d, lf in exits:
+                    near = g.dominates(d, n) or (g.must_follow(n, [d]) and not any(
+                        g.nodes[i2].kind == 'call' and g.nodes[i2] is not d and not any(y is g.nodes[i2].e for y in SX.walk(d.e))
+                        for i2 in (g.reachable([n], avoid=[d]) & g.reachable([d], forward=False, avoid=[n]))))
+                    if not near:
+                        continue
+                    gl = prog.cfg(lf)
+                    for n2, l2, r2, op2 in gl.writes():
+                        if SX.is_this_member(SX.strip(l2), m) and op2 in ('-=', '--') and (SX.show(r2) if op2 == '-=' else '1') == amount:
+                            c2 = sorted(SX.show(ce) + ('' if pol else '!') for ce, pol, _ in gl.guards(n2))
+                            if c2 == conds and gl.must_follow(gl.entry, [n2] + [e_ for e_ in gl.nodes if e_.kind == 'edge' and not e_.pol and conds and SX.show(e_.e) + '' in [c_.rstrip('!') for c_ in conds]]):
+                                okb = True
+                if not okb:
+                    decs = [n2 for n2, l2, r2, op2 in g.writes() if SX.is_this_member(SX.strip(l2), m) and op2 in ('-=', '--')]
+                    okb = bool(decs) and g.must_follow(n, decs)
+                chk.ob('R16.D', f, n.ln or f.ln, okb, '%s raises %s by %s for the statements it analyses; the matching decrement runs on every exit (scope exit under the same condition, or on all normal paths)' % (
+                    _fkey(f), m, amount), key='context-depth:%s:%s#%d' % (_fkey(f), m, i_))
+            writes = [(n, l, r) for n, l, r, op in g.writes() if SX.is_this_member(SX.strip(l), m) and op == '=']
+            rnodes = {id(x) for x in restores(f.body, m, sids)} if sids else set()
+            sets = [(n, l, r) for n, l, r in writes if id(n.e) not in rnodes and not any(id(y) in rnodes for y in SX.walk(n.e))]
+            if not sets:
+                continue
+            nsite += 1
+            key = 'context:%s:%s' % (_fkey(f), m)
+            if not sl:
+                why = CONTEXT_SIGNALS.get((_fkey(f), m))
+                chk.ob('R16.D', f, sets[0][0].ln or f.ln, why is not None,
+                       '%s writes the context member %s without saving it%s' % (_fkey(f), m, (' — accepted: ' + why) if why else
+                                                                               ': whatever is analysed afterwards sees the value this visitor left behind'),
+                       key=key, nontrivial=why is None)
+                continue
+            sdecl = [d for d in g.nodes if d.kind == 'decl' and d.e.get('id') in sids]
+            rest_nodes = [n for n in g.nodes if SX.is_node(n.e) and n.kind in ('assign', 'call') and any(id(y) in rnodes for y in SX.walk(n.e))]
+            ok = True
+            why = ''
+            for n, l, r in sets:
+                saved_first = any(g.dominates(d, n) for d in sdecl)
+                guard = any(g.dominates(d, n) and restores(lf.body, m, sids) for d, lf in exits)
+                follow = bool(rest_nodes) and g.must_follow(n, rest_nodes)
+                if not saved_first:
+                    ok, why = False, 'the write at line %s is not preceded by the save' % n.ln
+                elif not (guard or follow):
+                    ok, why = False, 'after the write at line %s a normal path reaches the end of the visitor without restoring the saved value' % n.ln
+            chk.ob('R16.D', f, sets[0][0].ln or f.ln, ok, '%s sets %s for the body it analyses; saved first and restored on every normal exit%s' % (
+                _fkey(f), m, '' if ok else ': ' + why), key=key)
+    chk.count('visitor × context-member sites', nsite, 10)
+
+
+def _fkey(f):
+    if f.short == 'visit' and f.params:
+        return 'visit(%s)' % f.params[0]['type'].split('::')[-1].replace(' &', '')
+    return f.short
